@@ -15,7 +15,7 @@ Lemma discipline : discipline_ok tsrm_fns = true.
 Proof. vm_compute. reflexivity. Qed.
 Lemma model_follows_code : model_follows tsrm_fns = true.
 Proof. vm_compute. reflexivity. Qed.
-Lemma once_init_only : once_only fn_refs = true.
+Lemma once_init_only : once_only tsrm_fns constructors fn_refs = true.
 Proof. vm_compute. reflexivity. Qed.
 Lemma nm_cross_check : nm_agrees globals nm_symbols unresolved_refs = true.
 Proof. vm_compute. reflexivity. Qed.
